@@ -117,9 +117,17 @@ func main() {
 			r.Stat("class.exhaustive", 1)
 		})
 	}
-	nConf := 400
+	nConf, nDHCP := 400, 500
 	if r.Thorough() {
-		nConf = 8000
+		nConf, nDHCP = 8000, 10000
+	}
+	for i := 0; i < nDHCP; i++ {
+		ops := g.DHCPExchangeHistory()
+		if i%3 == 1 {
+			ops = tables.RawOps(ops, rng, 10, func(k string) { r.Stat(k, 1) })
+		}
+		r.Do("t6", append([]string{cfg.Tok(), "0"}, ops...)...)
+		r.Stat("class.dhcp-exchange", 1)
 	}
 	for i := 0; i < nConf; i++ {
 		var ops []string
